@@ -308,8 +308,11 @@ impl VM {
 
         if exceeded_iteration_limit || is_out_of_gas || should_die {
             #[cfg(smlxl_storage_layout_extractor_verif)]
+            let verif_gas = self.thread_queue.front().map_or(0, VMThread::gas_usage);
+            #[cfg(smlxl_storage_layout_extractor_verif)]
             crate::verif::emit(|| crate::verif::Event::Retire {
                 ip:         instruction_pointer,
+                gas:        verif_gas,
                 at_limit:   exceeded_iteration_limit,
                 out_of_gas: is_out_of_gas,
                 killed:     should_die,
